@@ -124,11 +124,12 @@ Qed.
 Theorem read_counts : forall s n,
   let '(s', bytes, notes) := uf_read s n in
   u_gcount s' = Z.of_nat (length bytes) /\ u_tellg s' = u_tellg s + u_gcount s' /\ 0 <= u_gcount s' <= Z.max 0 n /\ (u_fsz s < n + u_tellg s -> u_tellg s' <= Z.max (u_tellg s) (u_fsz s)) /\ (u_fsz s < n + u_tellg s -> uf_good s' = false /\ uf_eof s' = true) /\ (n + u_tellg s <= u_fsz s -> 0 < n -> uf_good s' = true /\ uf_eof s' = false) /\
-  (n + u_tellg s <= u_fsz s -> n <= 0 -> u_rd s' = u_rd s) /\ u_tellp s' = u_tellp s /\ u_data s' = u_data s /\ u_fsz s' = u_fsz s /\ notes = [CVU_tellg].
+  (n + u_tellg s <= u_fsz s -> n <= 0 -> u_rd s' = u_rd s) /\ u_tellp s' = u_tellp s /\ u_data s' = u_data s /\ u_fsz s' = u_fsz s /\ u_buf s' = Z.max (u_buf s) n /\ In CVU_tellg notes.
 Proof.
   intros s n. unfold uf_read.
   destruct (read_loop _ _ _ _ _) as [tg bytes] eqn:R. apply read_loop_bounds in R.
   destruct R as (A & B & C & more & E). cbn [length] in C. cbn.
+  assert (HB : (if u_buf s <? n then n else u_buf s) = Z.max (u_buf s) n) by (destruct (u_buf s <? n) eqn:G; [apply Z.ltb_lt in G|apply Z.ltb_ge in G]; lia).
   destruct (u_fsz s <? n + u_tellg s) eqn:F.
   - apply Z.ltb_lt in F. repeat split; auto; try lia; try (intros; lia).
   - apply Z.ltb_ge in F. destruct (0 <? n) eqn:P; repeat split; auto; try lia; try (intros; lia).
